@@ -267,13 +267,6 @@ Definition detect_style (acr : acr_tab) (s : bytes) : option style :=
 
 (* ------------------------------------------------------------------ variant maps *)
 (* BTreeMap<String,String> as an association list kept sorted by key (byte order) *)
-Fixpoint bytes_ltb (a b : bytes) : bool :=
-  match a, b with
-  | [], [] => false
-  | [], _ :: _ => true
-  | _ :: _, [] => false
-  | x :: a', y :: b' => if x <? y then true else if y <? x then false else bytes_ltb a' b'
-  end.
 
 Definition amap := list (bytes * bytes).
 
